@@ -27,7 +27,9 @@ LEVEL_TEXT = (
     "entry by entry); values never depend on the masks; the three strings, the default (= 'nn_params') and mixed "
     "string/tree specifications resolve to their explicit boolean trees, unknown strings are rejected; "
     "stop_gradient is idempotent, commutes, and `_set_derivatives` is exactly stop_gradient on the unselected "
-    "groups.  The model is tied to /repo on every run: real jax.grad of the real loss.evaluate (total and every "
+    "groups; Holds.C06 (the property as a predicate on observations) is proved true of every observation the "
+    "model's `predict` produces, for every well-formed layout and every specification, accepted or rejected.  "
+    "The model is tied to /repo on every run: real jax.grad of the real loss.evaluate (total and every "
     "returned term) for ODE, stationary, non-stationary and system losses on polynomial problems with exact float64 "
     "arithmetic; the per-(term, group) gradients measured under the all-true specification are the model's "
     "differential tables, they are compared with exact reference gradients, and Holds.C06 is evaluated on the "
@@ -79,6 +81,8 @@ THEOREMS = [
     "Jinns.DerivKeys.liftMask_dict_nn",
     "Jinns.DerivKeys.lifted_selects",
     "Jinns.DerivKeys.totalJvp_routes_by_specification",
+    "Jinns.DerivKeys.holdsObs_of_model",
+    "Jinns.DerivKeys.holdsC06_of_model",
 ]
 LEAN_MODULES = ["JinnsProofs.C06"]
 RULE = (
@@ -275,7 +279,7 @@ def problem(rng, kind, eq):
         pb["net"] = {u: _coefs(rng, monos, must) for u in nets}
         pb["t"] = [str(Fraction(rng.randint(1, 8), 4)) for _ in range(rng.choice([2, 4]))]
         pb["ic"] = {u: [rng.choice(["1/2", "1"]), _dy(rng, -2, 2, 2)] for u in nets}
-        pb["obs"] = {u: [[pos(), _dy(rng, -3, 3, 2)] for _ in range(2)] for u in nets}
+        pb["obs"] = {u: [[pos(), _dy(rng, -3, 3, 2)] for _ in range(4)] for u in nets}
     else:
         nets = ["u"] if kind in ("statio", "nonstatio") else ["u", "v"]
         if kind == "nonstatio":
@@ -287,14 +291,14 @@ def problem(rng, kind, eq):
         pb["net"] = {u: _coefs(rng, monos, must) for u in nets}
         nt = 1 if kind == "nonstatio" else 0
         n = rng.choice([2, 4])
-        xs = lambda: rng.choice(["-1", "-1/2", "1/2", "1"])
+        xs = lambda: rng.choice(["-1", "-1/2", "1/2", "1", "3/2", "2"])
         pb["inside"] = [[pos() for _ in range(nt)] + [xs()] for _ in range(n)]
-        pb["border"] = [[[pos(), "-1"], [pos(), "1"]] if nt else [["-1"], ["1"]]
-                        for _ in range(2)]  # rows: border points; per row the two facets
+        pb["border"] = [[[pos(), "-1"], [pos(), "2"]] if nt else [["-1"], ["2"]]
+                        for _ in range(2)]  # rows: border points; per row the two facets (domain [-1, 2])
         pb["bval"] = {u: _dy(rng, -1, 1, 2) for u in nets}
         pb["norm"] = [[rng.choice(["1/2", "1"])] for _ in range(2)]
         pb["L"] = rng.choice(["1/2", "1", "2"])
-        pb["obs"] = {u: [[[pos() for _ in range(nt)] + [xs()], _dy(rng, -3, 3, 2)] for _ in range(2)]
+        pb["obs"] = {u: [[[pos() for _ in range(nt)] + [xs()], _dy(rng, -3, 3, 2)] for _ in range(4)]
                      for u in nets}
         pb["icv"] = [_dy(rng, -1, 1, 2), _dy(rng, -1, 1, 1)]
     return pb
